@@ -93,11 +93,17 @@ func xmlUnmarshalElement(el *etree.Element, obj interface{}) error {
 	// Escape carriage returns in text as character references so that they
 	// survive re-parsing (a raw CR would be normalized to LF).
 	doc.WriteSettings.CanonicalText = true
+	// Likewise in attribute values. With this setting '>' is written literally
+	// inside attribute values, and encoding/xml refuses the sequence "]]>"
+	// outside CDATA even there, so that sequence is escaped afterwards (with
+	// canonical text escaping it cannot occur in character data).
+	doc.WriteSettings.CanonicalAttrVal = true
 	doc.SetRoot(el)
 	data, err := doc.WriteToBytes()
 	if err != nil {
 		return err
 	}
+	data = bytes.ReplaceAll(data, []byte("]]>"), []byte("]]&gt;"))
 
 	err = xml.Unmarshal(data, obj)
 	if err != nil {
